@@ -1,1 +1,2 @@
+import FcProps.C01
 import FcProps.C16
